@@ -81,10 +81,15 @@ def colour_expr(e, lets):
         return ("none",)
     if e.get("k") == "call" and e.get("ctor", "").endswith("Option::Some"):
         v = hir.simp(e["args"][0])
-        if hir.is_call(v, "Into<U>>::into", "From<T>>::from"):
-            v = hir.simp(v["args"][0])
-        if v.get("k") == "local" and v["name"] in lets:
-            v = hir.simp(lets[v["name"]])
+        for _ in range(6):     # conversions and temporaries between the constructor and Some(..) are transparent
+            if hir.is_call(v, "Into<U>>::into", "From<T>>::from"):
+                v = hir.simp(v["args"][0])
+            elif v.get("k") == "local" and ("id", v.get("id")) in lets:
+                v = hir.simp(lets[("id", v.get("id"))])
+            elif v.get("k") == "local" and v["name"] in lets and ("id", v.get("id")) not in lets and not any(isinstance(k, tuple) for k in lets):
+                v = hir.simp(lets[v["name"]])
+            else:
+                break
         return colour_value(v)
     raise Unrecognised("colour argument is neither None nor Some(..)")
 
@@ -140,7 +145,12 @@ class Dispatch:
                     raise Unrecognised("csi_dispatch: arm pattern")
 
     def lets_of(self, arm):
-        return {n["pat"]["name"]: n["init"] for n in hir.walk(arm["body"]) if n.get("k") == "let" and n["pat"].get("k") == "pbind" and "init" in n}
+        out = {}
+        for n in hir.walk(arm["body"]):
+            if n.get("k") == "let" and n["pat"].get("k") == "pbind" and "init" in n:
+                out[n["pat"]["name"]] = n["init"]
+                out[("id", n["pat"].get("id"))] = n["init"]
+        return out
 
     def style_ops(self, arm):
         ops = []
